@@ -447,6 +447,7 @@ def clause_props(scratch, unit, err):
     of its unit. Verifier-generated safety obligations (overflow, bounds, unwrap, callee preconditions) speak for C04 when
     the unit belongs to C04 (totality), otherwise for every property of the unit."""
     allp = list(unit['props'])
+    fullp = list(unit['props'])
     msg = err['message']
     SAFETY = ('possible arithmetic underflow/overflow', 'possible division by zero', 'possible bit shift', 'index out of bounds', 'precondition not met')
     text = (err.get('text') or '')
@@ -485,11 +486,24 @@ def clause_props(scratch, unit, err):
         m = re.match(r'\s*// props: (.*)$', lines[i])
         if m:
             tagged = [p for p in re.split(r'[ ,]+', m.group(1).strip()) if p]
-            return [p for p in tagged if p in allp] or allp
+            # an explicit clause tag may name a property the unit otherwise speaks for through safety obligations only (`C04!`):
+            # e.g. the validation clause of a constructor whose accepted range keeps a callee's assertion from firing
+            return [p for p in tagged if p in fullp] or allp
         if re.match(r'\s*(ensures|requires)\s*$', lines[i]):
             break
         i -= 1
     return allp
+
+
+def is_proof_step(scratch, unit, err):
+    """a failed ghost proof step: `assert(..)` / `assert .. by` / a lemma precondition inside spliced proof text — not a
+    postcondition, precondition of an exec callee, invariant or safety condition, and not an exec `assert!` of the real code"""
+    if clause_props(scratch, unit, err) is not None:
+        return False
+    text = (err.get('text') or '') + ' ' + (err.get('clause') or '')
+    if re.search(r'\bassert(_eq|_ne)?!\s*\(', text):
+        return False
+    return True
 
 
 def decide(prop, tier, seed, cfg, scratch, index, spec_dir, contracts_dir, evidence_path, t0, res):
@@ -569,7 +583,7 @@ def decide(prop, tier, seed, cfg, scratch, index, spec_dir, contracts_dir, evide
         if f_ in inv_base:
             try:
                 # the set of impls that hold units is the one recorded with the baseline (all configurations together)
-                now = engine.item_inventory(os.path.join(engine.REPO, f_), inv_base[f_]['contracted'])
+                now = engine.item_inventory(os.path.join(engine.REPO, f_), inv_base[f_]['contracted'], inv_base[f_].get('unit_fns'))
             except Exception:
                 continue
             added = [x for x in now if x not in inv_base[f_]['items']]
@@ -706,6 +720,24 @@ def decide(prop, tier, seed, cfg, scratch, index, spec_dir, contracts_dir, evide
                     new_fail.append((u, e))
         if new_fail:
             witness = run_witness(prop, tier, seed, new_fail)
+            if not (witness and witness.get('status') == 'found'):
+                # A unit whose ONLY failures are ghost proof steps (an `assert(..)` / lemma call inside spliced proof text) has
+                # no refuted contract clause: the proof no longer goes through on the current text (e.g. a helper was inlined,
+                # an equivalent expression used). Without a concrete failing input that is "undecided", not a violation.
+                soft = []
+                for u in list(failed):
+                    es = [e for e in verdicts[u['uid']]['errors'] if e['kind'] == 'failed']
+                    if es and all(is_proof_step(scratch, u, e) for e in es) and not verdicts[u['uid']].get('kani_counterexample'):
+                        soft.append(u)
+                for u in soft:
+                    failed.remove(u)
+                    undecided.append(u)
+                    verdicts[u['uid']]['verdict'] = 'undecided'
+                    for e in verdicts[u['uid']]['errors']:
+                        if e['kind'] == 'failed':
+                            e['kind'] = 'undecided'
+                            e['message'] = 'proof step no longer goes through (no contract clause refuted, no failing input found): ' + e['message']
+                new_fail = [(u, e) for (u, e) in new_fail if u not in soft]
             for n, (u, e) in enumerate(new_fail):
                 oid = '%s::%s#%d' % (u['path'].replace(' ', ''), e['message'].split(':')[0].replace(' ', '_'), n)
                 rp = os.path.join(REPLAY_OUT, '%s-%s.json' % (prop, hashlib.sha1(oid.encode()).hexdigest()[:10]))
@@ -766,7 +798,8 @@ def decide(prop, tier, seed, cfg, scratch, index, spec_dir, contracts_dir, evide
                             'attributed to a unit' % res['rc'], 'rendered': res['raw_err'][-2000:]})
     if status == 'undecided':
         # fallback: only a refutation that replays on the real code may turn "undecided" into a violation
-        witness = run_witness(prop, tier, seed, [])
+        if witness is None:
+            witness = run_witness(prop, tier, seed, [])
         if witness and witness.get('status') == 'found':
             rp = os.path.join(REPLAY_OUT, '%s-witness.json' % prop)
             write_json(rp, {'property': prop, 'obligation': 'undecided units; concrete counterexample found by replay',
